@@ -39,7 +39,11 @@ def run(ctx):
         "and for every field of every entry (signature i, protected header i, encrypted key i, the shared fields) one flipped bit followed by "
         "all parties' keys in ascending then descending order. The specification demands: every party's key opens an untampered object to the "
         "original payload at any point of any history; no other key ever does; a key never opens an object whose shared fields or whose own "
-        "entry were changed (a changed entry of ANOTHER party: either verdict, the payload must be the original). JWK: every key kind x {two ordinary keys, EC keys with a leading zero octet in X, in Y} x "
+        "entry were changed (a changed entry of ANOTHER party: either verdict, the payload must be the original). PRODUCER REUSE (JoseProd.tla): "
+        "a case is ONE Encrypter / Signer (every key management x key kind, every signature algorithm, 2-recipient / 2-signer producers over an "
+        "alphabet, signers with and without nonce source, both serializations) making every sequence of 2 and 3 objects with different payloads "
+        "and SetCompression in {none, DEF} chosen before each; every object - serialized when made, and again after the producer made the later "
+        "ones - must open with each party's key to ITS OWN payload and with no other key, as the specification computes for the k-th object. JWK: every key kind x {two ordinary keys, EC keys with a leading zero octet in X, in Y} x "
         "{public, private}. TLC enumerates the matrix; distinct = distinct cases; 'opens' in the notes counts the parse+verify/decrypt "
         "calls made on the real library."
         % ("Quick: the whole key-management matrix at payload size 17 and every payload size for dir, A128KW, RSA-OAEP, ECDH-ES; 3 seeded bits "
@@ -68,6 +72,8 @@ def run(ctx):
         "https/acme signContent and getKeyAuthorization are unexported: the same path is replayed through the jose API "
         "(RS256/ES256/ES384 signer with nonce source and embedded JWK, JSON serialization; key authorization = token '.' base64url(Thumbprint))",
         "ECDSA signatures are required to be R||S of the curve's fixed width (RFC 7518 3.4) since the library's own verifier rejects any other length",
+        "producer reuse: the payloads of one sequence are 17, 40 and 5 octets; no tampering (orthogonal); the nonce VALUE in the header is "
+        "not judged (the property speaks of payload and authenticated data)",
         "related wrong keys: nothing is claimed for HSxxx about K followed by zero octets / K without its trailing zero octets - RFC 2104 pads a "
         "short HMAC key with zeros, they are one key; the payload content classes are replayed without compression (with zip=DEF the content "
         "cipher pads the DEFLATE stream, whose tail the payload does not determine) and, like the related keys, without tampering (orthogonal)",
@@ -99,6 +105,17 @@ def run(ctx):
     ctx.tlc("jose", "Gen_JoseHist", "Gen_JoseHist.%s.cfg" % ctx.tier, cases_to=hcases, count_states=False, timeout=900, jopts=JOPTS)
     hres = ctx.replay("hist", hcases, timeout=1500)
     ctx.judge("hist", hcases, hres)
+    # producer reuse (JoseProd.tla): one Encrypter / Signer makes a sequence of objects
+    ctx.sany("jose", "Gen_JoseProd")   # parses JoseProd, JoseHist, Jose with it
+    ctx.tlc("jose", "MC_JoseProd", "MC_JoseProd.cfg", jopts=JOPTS)
+    ctx.tlc("jose", "MC_JoseProd", "MC_JoseProd_dev_producer_header_cached.cfg", expect_violation="ProdRoundTrip",
+            count_states=False, workers=1, jopts=JOPTS)
+    pcases = os.path.join(ctx.out, "prod_cases.ndjson")
+    ctx.tlc("jose", "Gen_JoseProd", "Gen_JoseProd.%s.cfg" % ctx.tier, cases_to=pcases, count_states=False, jopts=JOPTS)
+    pres = ctx.replay("prod", pcases, timeout=900)
+    ctx.judge("prod", pcases, pres)
+    ctx.notes["producer_sequences"] = sum((r.get("info") or {}).get("runs", 0) for r in pres)
+    ctx.notes["producer_opens"] = sum((r.get("info") or {}).get("opens", 0) for r in pres)
     ctx.notes["runs"] = sum((r.get("info") or {}).get("runs", 0) for r in res)
     ctx.notes["opens"] = sum((r.get("info") or {}).get("opens", 0) for r in res)
     ctx.notes["hist_behaviours"] = sum((r.get("info") or {}).get("runs", 0) for r in hres)
